@@ -48,6 +48,7 @@ def draw_knobs(rng: Rng, profile: dict):
     )
     if not kn["accounting"]:
         kn["acct_lag"] = False
+    kn.update(profile.get("force_knobs", {}))
     return kn
 
 
@@ -305,7 +306,11 @@ class WorldScenario:
             pre_latest = dict(w.latest)
             before = w.snapshot() if ("C05" in w.props and dry) else None
             jb = len(w.cluster.journal) if w.cluster else 0
-            res = w.gwf(argv, op.get("cwd", "root"))
+            self._install_interleave(w, op)
+            try:
+                res = w.gwf(argv, op.get("cwd", "root"))
+            finally:
+                w.between_seams = None
             self._exit_ok(w, res, argv)
             if res.exit_code == 0:
                 if dry:
@@ -325,6 +330,59 @@ class WorldScenario:
             return res
         res = w.gwf(argv, op.get("cwd", "root"), stdin=op.get("stdin"))
         return res
+
+    def _install_interleave(self, w, op):
+        """Scheduler transitions between the seam events of a running `gwf run` (a job may start or
+        finish while gwf is still submitting).  Generated once, recorded in the op, replayed verbatim."""
+        p = self.profile.get("interleave", 0)
+        if not p or w.cluster is None:
+            return
+        if self.replaying or "interleave" in op:
+            plan = {}
+            for k, t in op.get("interleave", []):
+                plan.setdefault(k, []).append(t)
+
+            def hook(kind):
+                for t in plan.get(w.seam_count, []):
+                    self._transition(w, t)
+        else:
+            r = self.rng.fork(("interleave", len(self.ops)))
+            op["interleave"] = []
+
+            def hook(kind):
+                # only once gwf has read the queue (all queries precede the first submission): a
+                # transition before that legitimately changes what gwf sees and hence the plan
+                if kind not in ("cmd:sbatch", "cmd:qsub", "cmd:bsub"):
+                    return
+                while r.chance(p):
+                    cl = w.cluster
+                    cands = []
+                    for j in sorted(cl.jobs.values(), key=lambda j: int(j.id)):
+                        if j.foreign:
+                            continue
+                        if j.phase == "pending" and cl.dep_state(j) == "ok":
+                            cands.append({"op": "start", "id": j.id})
+                        elif j.phase == "running":
+                            cands.append({"op": "finish", "id": j.id,
+                                          "how": "ok" if r.chance(self.profile.get("p_job_ok", 0.6)) else r.pick(FAIL_KINDS)})
+                    if not cands:
+                        return
+                    t = r.pick(cands)
+                    op["interleave"].append([w.seam_count, t])
+                    self._transition(w, t)
+                    w.probe("transitions_inside_gwf_run")
+
+        w.between_seams = hook
+
+    def _transition(self, w, t):
+        j = w.cluster.jobs.get(t["id"])
+        if j is None:
+            return
+        if t["op"] == "start" and j.phase == "pending" and w.cluster.dep_state(j) == "ok":
+            w.cluster.start(j)
+        elif t["op"] == "finish" and j.phase == "running":
+            w.cluster.finish(j, t["how"])
+            w.run_job_effects(j, t["how"])
 
     def _exit_ok(self, w, res, argv):
         if res.exit_code != 0 and res.exception is None and not res.faulted:
